@@ -55,19 +55,24 @@ STRUCT = 'struct / io.BytesIO models follow CPython for the formats occurring in
 ASSUMPTIONS = {
     'C01': [AEAD, CRC, STRUCT, CLOCK], 'C03': [AEAD, CRC, STRUCT, CLOCK], 'C04': [AEAD, STRUCT, CLOCK, 'C08: window exactness inside the window'],
     'C05': [AEAD, STRUCT, CLOCK, 'the composition "therefore eventually delivered" is a paper argument over the proven lemmas'],
-    'C06': [STRUCT, CLOCK, 'rope equality is structural: equal verdicts are sound, unrelated opaque contents compare as a free Boolean'],
+    'C06': [STRUCT, CLOCK, 'rope equality is structural: equal verdicts are sound, unrelated opaque contents compare as a free Boolean',
+            'L6.5b runs with Packet.MAX_FRAGMENTS lowered to 3 / 8 (the code reads the class attribute at run time); the production constant 8192 differs only in that number'],
     'C07': [CLOCK, STRUCT], 'C08': [STRUCT], 'C09': [STRUCT, CRC, AEAD],
     'C10': [AEAD, STRUCT, 'single-threaded driver of the real run(): threading/Condition/reactor/socket are inert stand-ins; server.sleep is a no-op',
             'inside the loop harness get_token hands out distinct values (the generator itself is decided in L10.3)'],
     'C11': [AEAD, CRC, STRUCT, 'single-threaded driver of the real run() as in C10'],
     'C12': [CLOCK, AEAD, 'socket/select stand-ins for UdpClient; the induction over emissions ("indefinitely") is a paper step'],
-    'C13': [STRUCT, 'float32 packing is an uninterpreted token with symbolic NaN / out-of-range flags', 'utf-8 length between chars and 4*chars'],
+    'C13': [STRUCT, 'float32 packing is an uninterpreted token with symbolic NaN / out-of-range flags', 'utf-8 length between chars and 4*chars',
+            'L13.3 runs with MAX_ARRAY_LENGTH lowered to 2 / 4 (module constant read at run time); a class\'s wire format is the fields it declares itself'],
     'C14': [STRUCT, 'work is counted in loop iterations, function entries and stream reads of the Python code'],
     'C15': ['json.dumps/loads modelled as identity on plain JSON data with object keys stringified (str(int) <-> int(str) inverse)'],
     'C16': ['z3 sequence/regex theory; sre parse tree -> z3 Re translation for the constructs the router emits; request paths range over non-control characters',
-            'rate limiter wall clock pinned to a realistic epoch time'],
-    'C17': ['CPython posixpath.py (pure-Python normpath fallback) is the specification of os.path on POSIX; string-level property (no symlinks)'],
+            'rate limiter wall clock pinned to a realistic epoch time', 'collections.OrderedDict is an insertion-ordered association list whose key lookup is decided by the solver'],
+    'C17': ['CPython posixpath.py (pure-Python normpath fallback) is the specification of os.path on POSIX; string-level property (no symlinks)',
+            'urllib.parse.unquote on a symbolic segment: solver-backed model, at most 2 percent escapes followed per path, escapes decoding to bytes >= 0x80 not modelled (beyond: inconclusive)'],
     'C18': [STRUCT], 'C20': ['finite domain enumerated exhaustively through engine decisions'],
+    'C19': ['uninterpreted functions obey congruence; under the collision-freedom switch f(a) == f(b) <=> a == b, with rope equality deciding a == b'],
+    'C02': [AEAD, CRC, STRUCT],
 }
 
 
